@@ -39,6 +39,12 @@ Fixpoint seq_all {A} (f : A -> emit) (l : list A) : emit :=
   | [] => fire []
   | x :: r => seq (f x) (seq_all f r)
   end.
+(* the same with the position of each element *)
+Fixpoint seq_all_from {A} (f : Z -> A -> emit) (i : Z) (l : list A) : emit :=
+  match l with
+  | [] => fire []
+  | x :: r => seq (f i x) (seq_all_from f (Z.succ i) r)
+  end.
 
 Definition replay_log (now : Z) (th : tid) (loc : location) (d : str) (l : steplog) : event :=
   match l with
@@ -74,8 +80,10 @@ Section Replay.
                 ++ (if truthy_time (r_end r) then [end_ev (event_time now (r_end r))] else [])
     end.
 
-  Definition replay_test (parent : path) (t : test_result) : emit :=
-    let nd := mkNode parent (t_meta t) 0 in
+  (* pos = position of the test in suite.get_tests(): event.test is the loaded TestResult (rank 0), whose sort key for the
+     writer is (0, pos) = Events.test_key 0 pos *)
+  Definition replay_test (parent : path) (pos : Z) (t : test_result) : emit :=
+    let nd := mkNode parent (t_meta t) (test_key 0 pos) in
     let r := t_result t in
     let started :=
       fire (ETestStart nd (event_time now (r_start r)) :: replay_steps (LocTest (node_path nd)) (r_steps r)
@@ -96,7 +104,7 @@ Section Replay.
         let p := node_path nd in
         seq (fire (ESuiteStart nd (event_time now start)
                    :: replay_phase (LocSuiteSetup p) (ESuiteSetupStart nd) (ESuiteSetupEnd nd) setup))
-       (seq (seq_all (replay_test p) tests)
+       (seq (seq_all_from (replay_test p) 0 tests)
        (seq ((fix go (l : list suite_result) : emit :=
                 match l with [] => fire [] | x :: r => seq (replay_suite p x) (go r) end) subs)
             (fire (replay_phase (LocSuiteTeardown p) (ESuiteTeardownStart nd) (ESuiteTeardownEnd nd) teardown
